@@ -66,7 +66,7 @@ class C08(E1Check):
 
     def units(self, tier: str, seed: int) -> list:
         svcs = [f"S:{a}:{b}" for a in ACTIONS for b in BODIES if valid(a, b)]
-        items = ["R", "T"] + svcs
+        items = ["R", "T", "TXE", "TXB"] + svcs
         progs = []
         maxn = 3 if tier == "quick" else 4
         for owner in ("root", "nested"):
@@ -74,6 +74,9 @@ class C08(E1Check):
                 for seq in itertools.product(items, repeat=n):
                     ns = sum(1 for x in seq if x.startswith("S"))
                     if ns == 0 or ns > 2:
+                        continue
+                    nx = sum(1 for x in seq if x.startswith("TX"))
+                    if nx > 1 or (nx and (n == maxn and ns == 2)):
                         continue
                     if n == maxn and tier == "quick" and ns == 2 and seq[0].startswith("S") and seq[-1].startswith("S") and len({x for x in seq if x.startswith("S")}) == 2:
                         continue
@@ -189,6 +192,13 @@ class C08(E1Check):
                     elif item == "T":
                         ctx.add_teardown_callback(lambda l=lbl: log("td", l))
                         log("reg", lbl, "T")
+                    elif item in ("TXE", "TXB"):
+                        def raiser(l: str = lbl, base: bool = item == "TXB") -> None:
+                            log("td", l)
+                            raise (HB if base else ValueError)("teardown callback " + l)
+
+                        ctx.add_teardown_callback(raiser)
+                        log("reg", lbl, item)
                     else:
                         _, action, body = item.split(":")
                         service, ta = make_service(lbl, action, body)
@@ -246,7 +256,7 @@ class C08(E1Check):
                 fail("swallowed", f"service task(s) raised {st['crashes']!r} but the root block ended with {out!r}")
         if crashed:
             return
-        if st.get("exc") is not None and not any("raise" in x or "base" in x for x in seq):
+        if st.get("exc") is not None and not any("raise" in x or "base" in x or x.startswith("TX") for x in seq):
             # (whether the exception of a raising teardown action is swallowed or re-raised is not stated; not judged)
             fail("unexpected-error", f"no task crashed, no teardown action raised, but the block raised {st['exc']!r}")
         if owner_left is not None:
@@ -273,7 +283,7 @@ class C08(E1Check):
                 continue
             # callbacks registered before the task was started run only after the task and its context finished
             for k in range(i):
-                if seq[k] in ("R", "T"):
+                if seq[k] in ("R", "T", "TXE", "TXB"):
                     t = next((j for j, ev in enumerate(tr) if ev[0] == "td" and ev[1] == str(k)), None)
                     if t is None:
                         fail("teardown-missing", f"teardown callback {k} never ran")
